@@ -414,6 +414,62 @@ func runCase(c Case) vh.Result {
 		}
 		time.Sleep(2 * time.Millisecond)
 	}
+	// Retransmission "until acknowledged": every scripted operation is bounded (blocks end at their deadline, <= 80 ms),
+	// after the script every connection is healthy, and no stop has been requested - so everything fed has to be
+	// acknowledged eventually. If the short budget above was not enough, wait much longer than all scripted delays and
+	// time-outs together can take before calling it a stall.
+	stopMu.Lock()
+	stoppedByScript := stopped
+	stopMu.Unlock()
+	drainedLate := false
+	// An ACK for an unknown ID costs the acknowledger one read (it reads one ACK per chunk handed to it): the ACKs of the
+	// last chunks then stay unread until more traffic comes or the session ends. Every valid configuration has a maximum
+	// session age (fluentdForward refuses maxDuration 0), which turns them into leftovers that are retransmitted; a script
+	// with bogus ACKs and no session age is outside what a real client worker is given, so nothing is demanded there.
+	bogusWithoutSessionAge := false
+	if c.MaxDuration == 0 {
+		for _, cs := range c.Conns {
+			for _, a := range cs.Acks {
+				if a.Outcome == "wrongid" {
+					bogusWithoutSessionAge = true
+				}
+			}
+		}
+	}
+	if !drained && !stoppedByScript && !bogusWithoutSessionAge {
+		deadline = time.Now().Add(15 * time.Second)
+		for time.Now().Before(deadline) && !drained {
+			stopMu.Lock()
+			s := stopped
+			stopMu.Unlock()
+			if s {
+				break
+			}
+			w.mu.Lock()
+			n := 0
+			for _, e := range w.events {
+				if e.Kind == "consumed" {
+					n++
+				}
+			}
+			w.mu.Unlock()
+			if n >= fed {
+				drained = true
+				drainedLate = true
+			}
+			time.Sleep(5 * time.Millisecond)
+		}
+		stopMu.Lock()
+		s := stopped
+		stopMu.Unlock()
+		if !drained && !s {
+			res.NonTrivial = true
+			res.Violation = vh.Fail("client:retransmission-stalled", "%d chunks were fed, every scripted fault is over and all further connections are healthy, no stop was requested - but 15 s later not all chunks have been acknowledged: the client neither reconnects nor retransmits\n%s\n%s", fed, history(w), vh.GoroutineDump())
+			w.stopOnce.Do(w.stop)
+			worker.Stopped().Wait(8 * time.Second)
+			return res
+		}
+	}
 	w.stopOnce.Do(w.stop)
 	if !worker.Stopped().Wait(8 * time.Second) {
 		res.NonTrivial = true
@@ -436,6 +492,9 @@ func runCase(c Case) vh.Result {
 	faultWhileUnacked, stopInFlight := false, false
 	unackedNow := map[string]bool{}
 	classes := map[string]bool{}
+	if drainedLate {
+		classes["drained-only-after-the-short-budget"] = true
+	}
 	lastSentOnConn := map[int]string{}
 	sentEverOn := map[int]map[string]bool{}
 	taken := map[string]bool{}
